@@ -149,9 +149,10 @@ Lemma match_scale_y_gen : forall pw x y xr yr m rt rr a,
   match_ref pw x (map (Qcmult a) y) xr (map (Qcmult a) yr) m rt rr = res_map (map (Qcmult a)) (match_ref pw x y xr yr m rt rr).
 Proof.
   intros pw x y xr yr m rt rr a. unfold match_ref.
-  destruct (resolve_fixed x xr m) as [[fi ridx]|e]; [|reflexivity]. cbn [bind fst snd].
-  rewrite integral_scale. destruct (integral xr yr rr) as [iv|e]; [|reflexivity]. cbn [bind res_map].
-  rewrite soi_scale. apply interval_match_scale.
+  destruct rt; [| |reflexivity].
+  all: destruct (resolve_fixed x xr m) as [[fi ridx]|e]; [|reflexivity]; cbn [bind fst snd].
+  all: rewrite integral_scale; destruct (integral xr yr rr) as [iv|e]; [|reflexivity]; cbn [bind res_map].
+  all: rewrite soi_scale; apply interval_match_scale.
 Qed.
 
 Theorem match_scale_y : forall pw x y xr yr m rt rr a, length x = length y -> length xr = length yr ->
@@ -401,8 +402,8 @@ Proof.
   pose proof (grid_length x N Hm HN) as HGl.
   destruct (grid_fi_facts x N Hm HN) as (Finc & Fbel & Flen).
   assert (HR : known_rule Rectangle) by (right; reflexivity).
-  rewrite (match_ref_eq pw _ _ x _ _ rt Rectangle _ _ HR FP).
-  rewrite (match_ref_eq pw _ _ x _ _ rt Rectangle _ _ HR FP).
+  rewrite (match_ref_eq pw _ _ x _ _ rt Rectangle _ _ Hrt HR FP).
+  rewrite (match_ref_eq pw _ _ x _ _ rt Rectangle _ _ Hrt HR FP).
   set (fi := map (fun k => (k * N)%nat) (seq 0 (length x))) in *.
   set (T' := sum_over_indices (integ Rectangle x (map (fun v => v + b) y)) (seq 0 (length x))).
   set (T := sum_over_indices (integ Rectangle x y) (seq 0 (length x))).
@@ -590,9 +591,12 @@ Proof.
   pose proof (grid_x_affine x N c d) as GA. unfold RfaEquivProofs.xmap in GA. fold F in GA.
   rewrite GA, map_length in FP'.
   assert (HR : known_rule Rectangle) by (right; reflexivity).
-  rewrite (match_ref_eq pw _ _ _ _ _ rt Rectangle _ _ HR FP).
-  rewrite (match_ref_eq pw _ _ _ _ _ rt Rectangle _ _ HR FP').
-  cbn [integ]. rewrite rect_xaff, soi_scale. apply interval_match_xaff.
+  destruct rt as [| |]; [| |reflexivity].
+  1: assert (Hrt : known_rule Trapezoid) by (left; reflexivity).
+  2: assert (Hrt : known_rule Rectangle) by (right; reflexivity).
+  all: rewrite (match_ref_eq pw _ _ _ _ _ _ Rectangle _ _ Hrt HR FP).
+  all: rewrite (match_ref_eq pw _ _ _ _ _ _ Rectangle _ _ Hrt HR FP').
+  all: cbn [integ]; rewrite rect_xaff, soi_scale; apply interval_match_xaff.
 Qed.
 
 Lemma commute_x_affine : forall pw pwr gpow k rt n s, (2 <= n)%Z -> window_strategy_ok (Z.to_nat n) gpow k ->
